@@ -107,6 +107,100 @@ theorem every_class_dispatched : ∀ c ∈ Cls.all, ∃ vtName vt req, TableOk c
   · exact ⟨_, _, _, tableOk_uidref⟩
   · exact ⟨_, _, _, tableOk_waveform⟩
 
+/-! ## the constructor and accessor halves of the model against the keyword tables regenerated from source (`T13k`)
+
+`Gen.srCtorWritesTop` / `srCtorWritesNested`: every attribute each `__init__` writes (and whether on every path);
+`Gen.srAccessorReads`: every attribute each property reads. -/
+
+/-- **Table level, source only**: what `_assert_value_type` requires of a value type, the constructor of the class
+it dispatches to always writes; and every attribute a property reads is one its class's constructor writes
+(`referenced_waveform_channels` reading `ReferencedFrameNumber` would fail here). -/
+theorem source_tables_consistent :
+    Gen.srRequiredAttrs.all (fun r =>
+      match Gen.srDispatch.lookup r.1 with
+      | none => false
+      | some c => r.2.all (fun k => Gen.srCtorWritesTop.any (fun w => w.1 == c && w.2.1 == k && w.2.2))) = true ∧
+    Gen.srAccessorReads.all (fun a =>
+      a.2.2.all (fun k =>
+        Gen.srCtorWritesTop.any (fun w => (w.1 == a.1 || w.1 == "ContentItem") && w.2.1 == k) ||
+        Gen.srCtorWritesNested.any (fun w => w.1 == a.1 && w.2.2.1 == k))) = true :=
+  ⟨required_subset_written, reads_subset_writes⟩
+
+/-- **The model's constructors write what the source's constructors write**: for every built item the keys of its
+attribute set contain every keyword the regenerated table marks "always" for its class (base class included) and
+nothing the table does not list. -/
+theorem constructors_write_regenerated_keys {it : Item} (h : Built it) : writesOkB it.cls (keysOf it) = true :=
+  h.writes
+
+/-- **The round trip over the regenerated tables**: its premise — the attributes the parser demands are present —
+follows from the two regenerated tables and the previous theorem alone; hence `parse (serialise it) = .ok it`. -/
+theorem roundtrip_from_tables {it : Item} (h : Built it) {vtName vt : String} {req : List String}
+    (T : TableOk it.cls vtName vt req) : (∀ k ∈ req, has k it.attrs = true) ∧ parse (serialise it) = .ok it :=
+  ⟨required_present_of_tables h T, parse_serialise h⟩
+
+/-- **The model's accessors read what the source's properties read**: each is a function of exactly the
+attributes of the item that the regenerated table lists for the property … -/
+theorem accessors_read_regenerated_attributes (it it' : Item) :
+    (SameOn (readKeys "ContentItem" "name") it it' → nameOf it = nameOf it') ∧
+    (SameOn (readKeys "ContentItem" "relationship_type") it it' → relOf it = relOf it') ∧
+    (SameOn (readKeys "CodeContentItem" "value") it it' → codeValue it = codeValue it') ∧
+    (SameOn (readKeys "TextContentItem" "value") it it' → strValue "TextValue" it = strValue "TextValue" it') ∧
+    (SameOn (readKeys "PnameContentItem" "value") it it' → strValue "PersonName" it = strValue "PersonName" it') ∧
+    (SameOn (readKeys "DateContentItem" "value") it it' → strValue "Date" it = strValue "Date" it') ∧
+    (SameOn (readKeys "TimeContentItem" "value") it it' → strValue "Time" it = strValue "Time" it') ∧
+    (SameOn (readKeys "DateTimeContentItem" "value") it it' → strValue "DateTime" it = strValue "DateTime" it') ∧
+    (SameOn (readKeys "UIDRefContentItem" "value") it it' → strValue "UID" it = strValue "UID" it') ∧
+    (SameOn (readKeys "NumContentItem" "value") it it' → numValue it = numValue it') ∧
+    (SameOn (readKeys "NumContentItem" "unit") it it' → numUnit it = numUnit it') ∧
+    (SameOn (readKeys "NumContentItem" "qualifier") it it' → numQualifier it = numQualifier it') ∧
+    (SameOn (readKeys "ContainerContentItem" "template_id") it it' → containerTemplate it = containerTemplate it') ∧
+    (SameOn (readKeys "CompositeContentItem" "value") it it' → refValue it = refValue it') ∧
+    (SameOn (readKeys "ImageContentItem" "value") it it' → refValue it = refValue it') ∧
+    (SameOn (readKeys "WaveformContentItem" "value") it it' → refValue it = refValue it') ∧
+    (SameOn (readKeys "ImageContentItem" "referenced_frame_numbers") it it' → imageFrames it = imageFrames it') ∧
+    (SameOn (readKeys "ImageContentItem" "referenced_segment_numbers") it it' → imageSegments it = imageSegments it') ∧
+    (SameOn (readKeys "WaveformContentItem" "referenced_waveform_channels") it it' → waveformChannels it = waveformChannels it') ∧
+    (SameOn (readKeys "ScoordContentItem" "value") it it' → scoordValue it = scoordValue it') ∧
+    (SameOn (readKeys "ScoordContentItem" "graphic_type") it it' → strValue "GraphicType" it = strValue "GraphicType" it') ∧
+    (SameOn (readKeys "Scoord3DContentItem" "value") it it' → scoord3dValue it = scoord3dValue it') ∧
+    (SameOn (readKeys "Scoord3DContentItem" "graphic_type") it it' → strValue "GraphicType" it = strValue "GraphicType" it') ∧
+    (SameOn (readKeys "Scoord3DContentItem" "frame_of_reference_uid") it it' →
+      strValue "ReferencedFrameOfReferenceUID" it = strValue "ReferencedFrameOfReferenceUID" it') ∧
+    (SameOn (readKeys "TcoordContentItem" "value") it it' → tcoordValue it = tcoordValue it') ∧
+    (SameOn (readKeys "TcoordContentItem" "temporal_range_type") it it' →
+      strValue "TemporalRangeType" it = strValue "TemporalRangeType" it') :=
+  accessors_read_regenerated_keys it it'
+
+/-- … and inside the one-item sequences (`MeasuredValueSequence`, `ContentTemplateSequence`,
+`ReferencedSOPSequence`), which the model keeps as structured values, the fields are the nested keywords the
+source writes and reads. -/
+theorem nested_keywords_fingerprint :
+    (nestedReadKeys "NumContentItem" "value" = ["FloatingPointValue", "NumericValue"] ∧
+     nestedReadKeys "NumContentItem" "unit" = ["MeasurementUnitsCodeSequence"] ∧
+     nestedReadKeys "ContainerContentItem" "template_id" = ["TemplateIdentifier"] ∧
+     nestedReadKeys "CompositeContentItem" "value" = ["ReferencedSOPClassUID", "ReferencedSOPInstanceUID"] ∧
+     nestedReadKeys "ImageContentItem" "value" = ["ReferencedSOPClassUID", "ReferencedSOPInstanceUID"] ∧
+     nestedReadKeys "WaveformContentItem" "value" = ["ReferencedSOPClassUID", "ReferencedSOPInstanceUID"] ∧
+     nestedReadKeys "ImageContentItem" "referenced_frame_numbers" = ["ReferencedFrameNumber"] ∧
+     nestedReadKeys "ImageContentItem" "referenced_segment_numbers" = ["ReferencedSegmentNumber"] ∧
+     nestedReadKeys "WaveformContentItem" "referenced_waveform_channels" = ["ReferencedWaveformChannels"]) ∧
+    Gen.srCtorWritesNested.map (fun w => (w.1, w.2.1, w.2.2.1)) =
+      [("NumContentItem", "MeasuredValueSequence", "NumericValue"),
+       ("NumContentItem", "MeasuredValueSequence", "FloatingPointValue"),
+       ("NumContentItem", "MeasuredValueSequence", "MeasurementUnitsCodeSequence"),
+       ("ContainerContentItem", "ContentTemplateSequence", "MappingResource"),
+       ("ContainerContentItem", "ContentTemplateSequence", "TemplateIdentifier"),
+       ("CompositeContentItem", "ReferencedSOPSequence", "ReferencedSOPClassUID"),
+       ("CompositeContentItem", "ReferencedSOPSequence", "ReferencedSOPInstanceUID"),
+       ("ImageContentItem", "ReferencedSOPSequence", "ReferencedSOPClassUID"),
+       ("ImageContentItem", "ReferencedSOPSequence", "ReferencedSOPInstanceUID"),
+       ("ImageContentItem", "ReferencedSOPSequence", "ReferencedFrameNumber"),
+       ("ImageContentItem", "ReferencedSOPSequence", "ReferencedSegmentNumber"),
+       ("WaveformContentItem", "ReferencedSOPSequence", "ReferencedSOPClassUID"),
+       ("WaveformContentItem", "ReferencedSOPSequence", "ReferencedSOPInstanceUID"),
+       ("WaveformContentItem", "ReferencedSOPSequence", "ReferencedWaveformChannels")] :=
+  ⟨nested_reads_fingerprint, by rw [nested_writes_fingerprint]; rfl⟩
+
 /-! ## the accessors report what the constructor was given -/
 
 /-- name and relationship type, for every constructor that goes through `ContentItem.__init__` only -/
